@@ -9,6 +9,19 @@ from mirsym.values import EngineError
 _CACHE = {}
 
 
+def _walk_rs(d):
+    """Rust sources of a crate: src/ first, then the other directories (tree-sitter keeps its binding in binding_rust/)."""
+    seen = []
+    for sub in ('src', 'binding_rust', 'lib', ''):
+        top = os.path.join(d, sub) if sub else d
+        if os.path.isdir(top):
+            for dp, dn, fn in os.walk(top):
+                if dp in seen or '/target' in dp:
+                    continue
+                seen.append(dp)
+                yield dp, dn, fn
+
+
 def crate_dir(name_glob):
     pats = [os.path.expanduser('~/.cargo/registry/src/*/%s' % name_glob), '/root/.cargo/registry/src/*/%s' % name_glob]
     for p in pats:
@@ -49,7 +62,7 @@ def struct_fields(crate_glob, name):
     if key in _CACHE:
         return _CACHE[key]
     d = crate_dir(crate_glob)
-    for dp, _dn, fn in os.walk(os.path.join(d, 'src')):
+    for dp, _dn, fn in _walk_rs(d):
         for f in fn:
             if not f.endswith('.rs'):
                 continue
@@ -69,7 +82,7 @@ def enum_variants(crate_glob, name):
     if key in _CACHE:
         return _CACHE[key]
     d = crate_dir(crate_glob)
-    for dp, _dn, fn in os.walk(os.path.join(d, 'src')):
+    for dp, _dn, fn in _walk_rs(d):
         for f in fn:
             if not f.endswith('.rs'):
                 continue
